@@ -1,5 +1,6 @@
 # C01 - App data flows only after an authenticated, completed handshake
 HARNESSES = [
+    COMMON["enc_gate"](12), COMMON["enc_gate"](13),
     COMMON["dec12"]("dec12_gate", ["C01"], COMMON["dec12_cases"](64, 40, dtls_only=("dtls10", "dtls12n")) + COMMON["dec12_cases"](96, 56, tier="thorough")),
     COMMON["dec13"]("dec13_gate", ["C01"], ns=((48, "quick"), (96, "thorough"))),
 ]
